@@ -26,29 +26,29 @@ variable {K : Type} [Field K] [LinearOrder K] [IsStrictOrderedRing K]
 /-- **Pruned search = linear scan for every sound bound** (n-ary hierarchies; state, items and
 bounds arbitrary): if an item covered by a bound that rejects the state could not have changed
 that state, skipping rejected subtrees does not change the result of the fold. -/
-theorem prune_search_eq_scan {ι β σ : Type} {covers : β → ι → Prop} {admit : β → σ → Bool}
-    {step : σ → ι → σ} (hskip : ∀ b s i, covers b i → admit b s = false → step s i = s)
+theorem prune_search_eq_scan {ι β σ : Type} {covers : β → ι → Prop} {adm : β → σ → Bool}
+    {step : σ → ι → σ} (hskip : ∀ b s i, covers b i → adm b s = false → step s i = s)
     (f : Forest ι β) (s : σ) (h : Forest.Sound covers f) :
-    f.search admit step s = f.items.foldl step s :=
+    f.search adm step s = f.items.foldl step s :=
   Forest.search_eq_foldl hskip f s h
 
 /-- The same for binary trees (leaves carry items, inner nodes a bound). -/
-theorem prune_btree_search_eq_scan {ι β σ : Type} {covers : β → ι → Prop} {admit : β → σ → Bool}
-    {step : σ → ι → σ} (hskip : ∀ b s i, covers b i → admit b s = false → step s i = s)
+theorem prune_btree_search_eq_scan {ι β σ : Type} {covers : β → ι → Prop} {adm : β → σ → Bool}
+    {step : σ → ι → σ} (hskip : ∀ b s i, covers b i → adm b s = false → step s i = s)
     (t : BTree ι β) (s : σ) (h : BTree.Sound covers t) :
-    t.search admit step s = t.items.foldl step s :=
+    t.search adm step s = t.items.foldl step s :=
   BTree.search_eq_foldl hskip t s h
 
 /-- Early-exit existential query = `List.any`. -/
-theorem prune_any_eq_scan {ι β : Type} {covers : β → ι → Prop} {admit : β → Bool} {p : ι → Bool}
-    (hskip : ∀ b i, covers b i → admit b = false → p i = false)
-    (f : Forest ι β) (h : Forest.Sound covers f) : f.any admit p = f.items.any p :=
+theorem prune_any_eq_scan {ι β : Type} {covers : β → ι → Prop} {adm : β → Bool} {p : ι → Bool}
+    (hskip : ∀ b i, covers b i → adm b = false → p i = false)
+    (f : Forest ι β) (h : Forest.Sound covers f) : f.any adm p = f.items.any p :=
   Forest.any_eq_any hskip f h
 
 /-- Collecting query = concatenation of the leaf answers (order and multiplicity preserved). -/
-theorem prune_collect_eq_scan {ι β γ : Type} {covers : β → ι → Prop} {admit : β → Bool}
-    {g : ι → List γ} (hskip : ∀ b i, covers b i → admit b = false → g i = [])
-    (f : Forest ι β) (h : Forest.Sound covers f) : f.collect admit g = f.items.flatMap g :=
+theorem prune_collect_eq_scan {ι β γ : Type} {covers : β → ι → Prop} {adm : β → Bool}
+    {g : ι → List γ} (hskip : ∀ b i, covers b i → adm b = false → g i = [])
+    (f : Forest ι β) (h : Forest.Sound covers f) : f.collect adm g = f.items.flatMap g :=
   Forest.collect_eq_flatMap hskip f h
 
 omit [Field K] [IsStrictOrderedRing K] in
